@@ -17,10 +17,10 @@ def Preserves (l : Layer) : Prop := ∀ r res r', l r = some (res, r') → Stats
 theorem base_preserves : Preserves base := by
   intro r res r' h hs
   unfold base at h
+  simp only at h
   split at h
   · simp only [Option.some.injEq, Prod.mk.injEq] at h; obtain ⟨_, rfl⟩ := h; exact hs
-  · simp only at h
-    split at h
+  · split at h
     · split at h
       · simp at h
       · simp only [Option.some.injEq, Prod.mk.injEq] at h
@@ -142,7 +142,7 @@ theorem counters_drainBreaker (r : Run) (id pos : Nat) : counters (drainBreaker 
   · rename_i c b _
     simp only [counters_updBreaker]
     suffices ∀ (es : List Breaker.Event) (r : Run),
-        counters (es.foldl (fun r ev => { r with log := r.log ++ [⟨breakerEventName ev, pos, 0, 0⟩] }) r) = counters r from this _ r
+        counters (es.foldl (fun r ev => { r with log := r.log ++ [⟨breakerEventName ev, pos, 0, 0, none⟩] }) r) = counters r from this _ r
     intro es
     induction es with
     | nil => intro r; rfl
@@ -298,14 +298,14 @@ theorem breaker_rejection_not_an_execution (fuel pos id : Nat) (h : List Cond) (
     split
     · rfl
     · suffices ∀ (es : List Breaker.Event) (r0 : Run),
-          ((es.foldl (fun r ev => { r with log := r.log ++ [⟨breakerEventName ev, pos, 0, 0⟩] }) r0).inv = r0.inv) ∧
-          ((es.foldl (fun r ev => { r with log := r.log ++ [⟨breakerEventName ev, pos, 0, 0⟩] }) r0).execs = r0.execs) ∧
-          ((es.foldl (fun r ev => { r with log := r.log ++ [⟨breakerEventName ev, pos, 0, 0⟩] }) r0).attempts = r0.attempts) by
+          ((es.foldl (fun r ev => { r with log := r.log ++ [⟨breakerEventName ev, pos, 0, 0, none⟩] }) r0).inv = r0.inv) ∧
+          ((es.foldl (fun r ev => { r with log := r.log ++ [⟨breakerEventName ev, pos, 0, 0, none⟩] }) r0).execs = r0.execs) ∧
+          ((es.foldl (fun r ev => { r with log := r.log ++ [⟨breakerEventName ev, pos, 0, 0, none⟩] }) r0).attempts = r0.attempts) by
         first | exact (this _ _).1 | exact (this _ _).2.1 | exact (this _ _).2.2
       intro es
       induction es with
       | nil => intro r0; exact ⟨rfl, rfl, rfl⟩
-      | cons e es ih => intro r0; simp only [List.foldl_cons]; have := ih { r0 with log := r0.log ++ [⟨breakerEventName e, pos, 0, 0⟩] }; exact this
+      | cons e es ih => intro r0; simp only [List.foldl_cons]; have := ih { r0 with log := r0.log ++ [⟨breakerEventName e, pos, 0, 0, none⟩] }; exact this
 
 /-- a full bulkhead and a refusing rate limiter likewise: no invocation, no execution -/
 theorem bulkhead_rejection_not_an_execution (fuel pos id : Nat) (inner : Layer) (r : Run) (cap held : Nat)
